@@ -1103,10 +1103,151 @@ def rule_centred(ctx):
     return res.finish(1)
 
 
+def _formula_expected(fm, name):
+    """the textbook definition of a single-target regression score in the algebra of rules/formula.py; p = the receiver's
+    elements (the prediction), t = the argument's (the truth)"""
+    from .calc import Rat
+    p, t, n = fm.atom("p"), fm.atom("t"), fm.atom("n")
+    one = Rat.const(1)
+    S = fm.total
+    d = p - t
+    m = S(t) / n
+    if name == "max_error":
+        return fm.extremum("MAX", fm.fn_atom("abs", d))
+    if name == "mean_absolute_error":
+        return S(fm.fn_atom("abs", d)) / n
+    if name == "mean_squared_error":
+        return S(d * d) / n
+    if name == "mean_squared_log_error":
+        lp, lt = fm.fn_atom("ln", one + p), fm.fn_atom("ln", one + t)
+        return S((lp - lt) * (lp - lt)) / n
+    if name == "mean_absolute_percentage_error":
+        return S(fm.fn_atom("abs", d / p)) / n
+    if name == "r2":
+        return one - S(d * d) / S((t - m) * (t - m))
+    if name == "explained_variance":
+        md = S(d) / n
+        return one - (S(d * d) / n - md * md) / (S((t - m) * (t - m)) / n)
+    return None
+
+
+def rule_formula(ctx):
+    """The score functions that are written as one array expression are read into a rational normal form (sums expanded by
+    linearity, |u| / ln u / clip u as atoms, literal regularisers of at most 1e-6 set to zero) and compared with the textbook
+    definition built in the same algebra.  Decided by cross-multiplication (and by the value of both normal forms at fixed
+    rational points with uninterpreted functions), so any way of writing the same formula passes and a formula that differs
+    as a function does not."""
+    from .formula import Formula, V
+    from .calc import Unsupported, Rat
+    res = RuleResult("R-C05-formula", "max / mean absolute / mean squared / squared-log / percentage error, R2 and explained variance, F-beta, the macro averages of precision and recall and the log-loss are, as rational functions of their inputs, the textbook definitions")
+    F = ctx.facts()
+    n = 0
+
+    def read(fn, env_names, setup=None, body=None):
+        fm = Formula(F)
+        if setup:
+            setup(fm)
+        env = {}
+        ps = [b for p_ in fn["params"] for b in pat_bindings(p_)]
+        for b, v in zip(ps, env_names):
+            env[b["local"]] = v(fm)
+        return fm, fm.expr(fn["crate"], body if body is not None else fn["body"], env)
+
+    def verdict(fn, what, fm, got, want, note=""):
+        key = fn_key(fn) + (":" + what if what else "")
+        if fm.same(got.r, want):
+            res.ok()
+            res.sample({"score": key, "normal form": fm.drop_eps(got.r).key()[:160]})
+        else:
+            res.violate("%s : differs-from-definition:%s" % (key, fm.digest(got.r)), "the expression computed by `%s` is, as a function of its inputs, not the definition%s: computed %s, definition %s" % (fn["d"]["name"], note, fm.drop_eps(got.r).key()[:300], want.key()[:300]), fn_loc(fn))
+
+    elem_p = lambda fm: V("elem", fm.atom("p"))      # noqa: E731
+    elem_t = lambda fm: V("elem", fm.atom("t"))      # noqa: E731
+    # -- single-target regression scores
+    for fn in F.all_fns():
+        d = fn["d"]
+        if d["krate"] != "linfa" or not (d.get("trait") or "").endswith("SingleTargetRegression") or d.get("pk") != "trait":
+            continue
+        if d["name"] == "median_absolute_error":
+            continue            # an order statistic: R-C05-median
+        n += 1
+        key = fn_key(fn)
+        res.instance(key)
+        try:
+            fm, got = read(fn, [elem_p, elem_t])
+            want = _formula_expected(fm, d["name"])
+            if want is None:
+                res.undecided("%s : no-definition" % key, "no textbook definition recorded for `%s` (fail closed)" % d["name"], fn_loc(fn))
+                continue
+            if got.kind != "scal" or isinstance(got.r, tuple):
+                raise Unsupported("the result is not a scalar")
+            verdict(fn, "", fm, got, want, " (p: receiver, t: argument)")
+        except (Unsupported, TypeError, KeyError, AttributeError) as e_:
+            res.undecided("%s : not-read" % key, "the expression of `%s` is outside the vocabulary of the formula reader: %s (fail closed)" % (d["name"], e_), fn_loc(fn))
+    # -- F-beta, macro averages
+    for fn in fns_named(F, "f_score", adt="ConfusionMatrix"):
+        n += 1
+        key = fn_key(fn)
+        res.instance(key)
+        try:
+            fm, got = read(fn, [lambda fm: V("scal", fm.atom("self")), lambda fm: V("scal", fm.atom("beta"))], setup=lambda fm: fm.opaque.update(("precision", "recall")))
+            P, R, b = fm.atom("call:precision"), fm.atom("call:recall"), fm.atom("beta")
+            want = (Rat.const(1) + b * b) * P * R / (b * b * P + R)
+            verdict(fn, "", fm, got, want, " (1 + b^2) P R / (b^2 P + R)")
+        except (Unsupported, TypeError, KeyError, AttributeError) as e_:
+            res.undecided("%s : not-read" % key, "f_score is outside the vocabulary of the formula reader: %s (fail closed)" % e_, fn_loc(fn))
+    for nm in ("precision", "recall"):
+        for fn in fns_named(F, nm, adt="ConfusionMatrix"):
+            n += 1
+            key = fn_key(fn)
+            res.instance(key + ":macro")
+            body = strip(fn["body"])
+            top = strip(body.get("e")) if body.get("k") == "Block" and not body["stmts"] else body
+            arm = None
+            if top.get("k") == "If" and top.get("else") is not None:
+                cond = peel_refs(top.get("cond") or top.get("c"))
+                neg = False
+                while cond.get("k") == "Unary" and cond["op"] == "!":
+                    cond, neg = peel_refs(cond["e"]), not neg
+                if cond.get("k") == "MethodCall" and cond["name"] == "is_binary":
+                    arm = top["then"] if neg else top["else"]
+            if arm is None:
+                res.undecided("%s : macro-arm" % key, "the multi-class arm of `%s` (the branch for `!is_binary()`) was not recognised (fail closed)" % nm, fn_loc(fn))
+                continue
+            try:
+                def setup(fm, nm=nm):
+                    fm.opaque.update(("precision", "recall", "accuracy", "f1_score", "mcc"))
+                    fm.opaque_elem["split_one_vs_all"] = "cm"
+                fm, got = read(fn, [lambda fm: V("scal", fm.atom("self"))], setup=setup, body=arm)
+                want = fm.total(fm.fn_atom("call:" + nm, fm.atom("cm", elem=True))) / fm.atom("n")
+                verdict(fn, "macro", fm, got, want, " (the unweighted mean of the one-vs-all %ss)" % nm)
+            except (Unsupported, TypeError, KeyError, AttributeError) as e_:
+                res.undecided("%s : not-read" % key, "the multi-class arm of `%s` is outside the vocabulary of the formula reader: %s (fail closed)" % (nm, e_), fn_loc(fn))
+    # -- log-loss (the implementation over arrays; the others forward to it)
+    for fn in fns_named(F, "log_loss"):
+        if not (fn["d"].get("self_adt") or fn["d"].get("self_ty") or "").endswith("ArrayBase") and "ArrayBase" not in fn_key(fn):
+            continue
+        n += 1
+        key = fn_key(fn)
+        res.instance(key)
+        try:
+            fm, got = read(fn, [elem_p, elem_t])
+            one = Rat.const(1)
+            cp = fm.fn_atom("clip", fm.atom("p"))
+            y = fm.atom("t")
+            want = fm.total(y * (-fm.fn_atom("ln", cp)) + (one - y) * (-fm.fn_atom("ln", one - cp))) / fm.atom("n")
+            verdict(fn, "", fm, got, want, " (mean of -[y ln q + (1 - y) ln(1 - q)], q the clipped probability)")
+        except (Unsupported, TypeError, KeyError, AttributeError) as e_:
+            res.undecided("%s : not-read" % key, "log_loss is outside the vocabulary of the formula reader: %s (fail closed)" % e_, fn_loc(fn))
+    if n < 11:
+        res.missing_anchor("the score functions read by the formula rule (found %d)" % n)
+    return res.finish(11)
+
+
 def rules(tier):
     from . import c02
     # the class list of a confusion matrix over a dataset is the key set of its label-count cache: shared with C02
     from . import bitorder
     from . import intnarrow
     return [intnarrow.make_rule("R-C05-narrow", lambda f: f["d"]["krate"] == "linfa" and any(x in fn_file(f) for x in ("metrics_", "correlation")), "the metrics of the linfa crate"),
-            rule_packed, rule_f1, rule_union, rule_centred, rule_clip, rule_sorted, bitorder.make_rule("R-C05-bitorder", {"linfa"}, 1, "the linfa crate (probabilities `Pr`, scores of the metrics)"), rule_delegate, rule_degree, rule_orient, rule_roles, rule_count, rule_median, rule_twice, rule_symmetric, rule_reset, c02.rule_counted]
+            rule_formula, rule_packed, rule_f1, rule_union, rule_centred, rule_clip, rule_sorted, bitorder.make_rule("R-C05-bitorder", {"linfa"}, 1, "the linfa crate (probabilities `Pr`, scores of the metrics)"), rule_delegate, rule_degree, rule_orient, rule_roles, rule_count, rule_median, rule_twice, rule_symmetric, rule_reset, c02.rule_counted]
